@@ -126,6 +126,14 @@ func WorkerMain() {
 	in := bufio.NewReaderSize(os.Stdin, 1<<20)
 	out := bufio.NewWriterSize(os.Stdout, 1<<16)
 	defer out.Flush()
+	// the protocol keeps the real stdin/stdout; Lua code (io.read, io.write, print
+	// through io.stdout) must not reach them
+	if f, err := os.Open(os.DevNull); err == nil {
+		os.Stdin = f
+	}
+	if f, err := os.OpenFile(os.DevNull, os.O_WRONLY, 0); err == nil {
+		os.Stdout = f
+	}
 	emit := func(tag string, v interface{}) {
 		b, _ := json.Marshal(v)
 		out.WriteString(tag)
